@@ -75,13 +75,21 @@ func (s *ServerKeyStore) allPairPrivateKeys(ring api.KeyRing) ([]*keys.PrivateKe
 	if err != nil {
 		return nil, err
 	}
-	privateKeys := make([]*keys.PrivateKey, len(seqnums))
-	for i, seqnum := range seqnums {
+	privateKeys := make([]*keys.PrivateKey, 0, len(seqnums))
+	for _, seqnum := range seqnums {
+		// destroyed keys have no key data anymore, remaining keys must stay available
+		state, err := ring.State(seqnum)
+		if err != nil {
+			return nil, err
+		}
+		if state == api.KeyDestroyed {
+			continue
+		}
 		privateKey, err := ring.PrivateKey(seqnum, api.ThemisKeyPairFormat)
 		if err != nil {
 			return nil, err
 		}
-		privateKeys[i] = &keys.PrivateKey{Value: privateKey}
+		privateKeys = append(privateKeys, &keys.PrivateKey{Value: privateKey})
 	}
 	return privateKeys, nil
 }
@@ -165,13 +173,21 @@ func (s *ServerKeyStore) allSymmetricKeys(ring api.KeyRing) ([][]byte, error) {
 	if err != nil {
 		return nil, err
 	}
-	symmetricKeys := make([][]byte, len(seqnums))
-	for i, seqnum := range seqnums {
+	symmetricKeys := make([][]byte, 0, len(seqnums))
+	for _, seqnum := range seqnums {
+		// destroyed keys have no key data anymore, remaining keys must stay available
+		state, err := ring.State(seqnum)
+		if err != nil {
+			return nil, err
+		}
+		if state == api.KeyDestroyed {
+			continue
+		}
 		symmetricKey, err := ring.SymmetricKey(seqnum, api.ThemisSymmetricKeyFormat)
 		if err != nil {
 			return nil, err
 		}
-		symmetricKeys[i] = symmetricKey
+		symmetricKeys = append(symmetricKeys, symmetricKey)
 	}
 	return symmetricKeys, nil
 }
